@@ -6,7 +6,7 @@ import datetime as _dt
 import io
 import os
 
-from .. import alphabet, common, refmodel, world as W
+from .. import alphabet, common, ladder, refmodel, world as W
 from .base import E1Check, viol
 
 UTC = dt.timezone.utc
@@ -127,7 +127,7 @@ class C04(E1Check):
     prop = "C04"
 
     def make_alphabet(self, seed):
-        return C04Alphabet(seed)
+        return ladder.install(C04Alphabet(seed))
 
     def rule(self):
         return (
@@ -187,7 +187,17 @@ class C04(E1Check):
                 cfgs.append({"name": f"csv/flush={'T' if flush else 'F'}/{'auto' if auto else 'manual'}/enc={enc or 'default'}/bigfile-130-rows",
                              "storage": "csv", "auto_index": auto, "csv": opts, "N": 140, "D": 4,
                              "init": (("insert_multiple", tuple(self.alpha.big), None, False, "db"),)})
-        return cfgs
+        return cfgs + self.ladder_cfgs()
+
+    def ladder_cfgs(self):
+        out = []
+        for c in ladder.configs(self.ladder_sizes(), storages=("csv",), autos=(True, False), D=2, big_depth=1 if self.tier == "quick" else 2):
+            out.append(c)
+            if c["auto_index"] and c["ladder"] != 40:
+                d = dict(c)
+                d.update(name=c["name"] + "/flush=F/utf-16", csv={"flush_on_insert": False, "encoding": "utf-16"})
+                out.append(d)
+        return out
 
     def bounds(self):
         return {"N": 3, "D": 3} if self.tier == "quick" else {"N": 3, "D": 4, "max_states": 20000}
@@ -262,6 +272,9 @@ class C04(E1Check):
 
     def coverage_extra(self, res):
         return {"configurations": len(self.configs())}
+
+    def ladder_op_list(self, cfg):
+        return [o for o in ladder.ops(self.alpha, cfg) if not (o[0] == "insert" and o[1] == "P5")] + [("reopen",)]
 
 
 def make(tier, seed):
